@@ -307,6 +307,12 @@ v("C18", "b10-release-found-cookie", "break", "client/cookiejar.go",
 v("C18", "b11-store-under-unsafe-key", "break", "client/cookiejar.go",
   "\thostCookies := cj.hostCookies[hostStr]\n\thostStr = string(host)\n", "\thostCookies := cj.hostCookies[hostStr]\n", "hostCookies-store-key:SetByHost", "stored key aliases the caller's buffer")
 
+# ---------------------------------------------------------------- second strengthening round (rules for the six value-level misses)
+v("C03", "b8-greedy-first-byte", "break", "path.go", "constPosition := strings.LastIndex(s, segment.ComparePart)", "constPosition := strings.LastIndexByte(s, segment.ComparePart[0])", "byte-search-needs-one-byte-constant", "greedy value cut at any occurrence of the first byte")
+v("C03", "b9-one-byte-guard-dropped", "break", "path.go", "\tif len(segment.ComparePart) == 1 {\n\t\tif constPosition := strings.IndexByte(s, segment.ComparePart[0]); constPosition != -1 {", "\tif len(segment.ComparePart) >= 1 {\n\t\tif constPosition := strings.IndexByte(s, segment.ComparePart[0]); constPosition != -1 {", "byte-search-needs-one-byte-constant", "first-byte fast path taken for longer constants")
+v("C03", "n2-one-byte-guard-negated", "benign", "path.go", "\tif len(segment.ComparePart) == 1 {\n\t\tif constPosition := strings.IndexByte(s, segment.ComparePart[0]); constPosition != -1 {", "\tif !(len(segment.ComparePart) != 1) {\n\t\tif constPosition := strings.IndexByte(s, segment.ComparePart[0]); constPosition != -1 {", why="same guard written as a negated inequality")
+
+
 os.makedirs('/verif/selftest', exist_ok=True)
 for prop, vs in V.items():
     p = f'/verif/selftest/{prop.lower()}.json'
